@@ -378,7 +378,16 @@ func genConcurrent(r *rng, thorough bool, args []string, yield func(in J)) {
 		mk := func(entry, path string, a J) J {
 			return step(entry, "POST", "application/activity+json", path, a)
 		}
-		switch i % 8 {
+		switch i % 9 {
+		case 8: // a forwarded activity (two owned collections, the application keeps only the second — filtering the
+			// slice it was given in place) next to requests that need those collections afterwards
+			w["filter"] = []interface{}{local("/col/2")}
+			reqs = append(reqs, mk("postInbox", "/users/alice/inbox", J{"type": "Listen", "id": remote("/activities/fw"), "actor": bob,
+				"object": local("/notes/1"), "to": []interface{}{local("/col/1"), local("/col/2")}}))
+			for j := 0; j < k-1; j++ {
+				reqs = append(reqs, mk("postInbox", "/users/alice/inbox", J{"type": "Add", "id": remote(fmt.Sprintf("/activities/afw%d", j)), "actor": bob,
+					"object": remote(fmt.Sprintf("/notes/addfw%d", j)), "target": local("/col/1"), "to": alice}))
+			}
 		case 7: // a rejected request among well-formed ones on the same actor: it leaves no lock behind
 			bad := []J{
 				{"type": "Like", "actor": alice, "object": J{"type": "Note", "content": "no id"}, "to": bob},
@@ -445,7 +454,7 @@ func genConcurrent(r *rng, thorough bool, args []string, yield func(in J)) {
 			}
 		}
 		for s := 0; s < scheds; s++ {
-			yield(J{"world": w, "requests": reqs, "schedSeed": 1 + r.intn(1000000), "family": i % 8})
+			yield(J{"world": w, "requests": reqs, "schedSeed": 1 + r.intn(1000000), "family": i % 9})
 		}
 	}
 }
